@@ -1,6 +1,7 @@
 use crate::impl_::node::{IsNode, IsWeakNode, Node, WeakNode};
 use crate::impl_::sodium_ctx::{SodiumCtx, SodiumCtxData};
 use crate::impl_::stream::{Stream, WeakStream};
+use parking_lot::Mutex;
 use std::collections::HashMap;
 use std::hash::Hash;
 use std::sync::{Arc, RwLock};
@@ -11,12 +12,15 @@ use super::node::IsNodeExt;
 pub struct Router<A, K> {
     sodium_ctx: SodiumCtx,
     table: Arc<RwLock<HashMap<K, WeakStream<A>>>>,
+    // what the router has dispatched in the current transaction: the keys and the event
+    current: Arc<Mutex<Option<(Vec<K>, A)>>>,
     node: Node,
 }
 
 pub struct WeakRouter<A, K> {
     sodium_ctx: SodiumCtx,
     table: Arc<RwLock<HashMap<K, WeakStream<A>>>>,
+    current: Arc<Mutex<Option<(Vec<K>, A)>>>,
     node: WeakNode,
 }
 
@@ -25,6 +29,7 @@ impl<A, K> Clone for Router<A, K> {
         Router {
             sodium_ctx: self.sodium_ctx.clone(),
             table: self.table.clone(),
+            current: self.current.clone(),
             node: self.node.clone(),
         }
     }
@@ -35,6 +40,7 @@ impl<A, K> Clone for WeakRouter<A, K> {
         WeakRouter {
             sodium_ctx: self.sodium_ctx.clone(),
             table: self.table.clone(),
+            current: self.current.clone(),
             node: self.node.clone(),
         }
     }
@@ -53,6 +59,7 @@ impl<A: Send + 'static, K: Send + Sync + 'static> IsNode for Router<A, K> {
         Box::new(WeakRouter {
             sodium_ctx: self.sodium_ctx.clone(),
             table: self.table.clone(),
+            current: self.current.clone(),
             node: Node::downgrade2(&self.node),
         })
     }
@@ -72,6 +79,7 @@ impl<A: Send + 'static, K: Send + Sync + 'static> IsWeakNode for WeakRouter<A, K
             Some(Box::new(Router {
                 sodium_ctx: self.sodium_ctx.clone(),
                 table: self.table.clone(),
+                current: self.current.clone(),
                 node,
             }))
         } else {
@@ -92,9 +100,11 @@ impl<A, K> Router<A, K> {
     {
         let node;
         let table = Arc::new(RwLock::new(HashMap::<K, WeakStream<A>>::new()));
+        let current = Arc::new(Mutex::new(None));
         {
             let sodium_ctx2 = sodium_ctx.clone();
             let table = table.clone();
+            let current = current.clone();
             let in_stream2 = in_stream.clone();
             node = Node::new(
                 sodium_ctx,
@@ -107,10 +117,10 @@ impl<A, K> Router<A, K> {
                             .map(|firing| (selector(firing), firing.clone()))
                     });
                     if let Some((keys, firing)) = keys_firing_op {
-                        for key in keys {
+                        for key in &keys {
                             let mut table = table.write().unwrap();
                             let mut remove_it = false;
-                            if let Some(weak_stream) = table.get(&key) {
+                            if let Some(weak_stream) = table.get(key) {
                                 if let Some(stream) = weak_stream.upgrade() {
                                     stream._send(firing.clone());
                                     sodium_ctx.with_data(|data: &mut SodiumCtxData| {
@@ -121,9 +131,18 @@ impl<A, K> Router<A, K> {
                                 }
                             }
                             if remove_it {
-                                table.remove(&key);
+                                table.remove(key);
                             }
                         }
+                        // a stream requested later in this transaction (by a handler) is owed the event too
+                        let mut current2 = current.lock();
+                        if current2.is_none() {
+                            let current = current.clone();
+                            sodium_ctx.pre_post(move || {
+                                *current.lock() = None;
+                            });
+                        }
+                        *current2 = Some((keys, firing));
                     }
                 },
                 vec![in_stream.box_clone()],
@@ -133,6 +152,7 @@ impl<A, K> Router<A, K> {
         Router {
             sodium_ctx: sodium_ctx.clone(),
             table,
+            current,
             node,
         }
     }
@@ -159,6 +179,15 @@ impl<A, K> Router<A, K> {
             let s = Stream::new(&self.sodium_ctx);
             s.node().data().dependencies.write().push(self.box_clone());
             table.insert(k.clone(), Stream::downgrade(&s));
+            // requested after the router has dispatched the event of the current transaction
+            if let Some((keys, firing)) = &*self.current.lock() {
+                if keys.contains(k) {
+                    s._send(firing.clone());
+                    self.sodium_ctx.with_data(|data: &mut SodiumCtxData| {
+                        data.changed_nodes.push(s.box_clone());
+                    });
+                }
+            }
             {
                 let table = self.table.clone();
                 let k = k.clone();
